@@ -6,11 +6,15 @@
 
 package broker
 
-// member m subscribes to topic t
+// member m subscribes to topic t. Opaque: inside assignPartitions / SyncGroup it is read as a fixed relation; that
+// reading is justified by the frame clauses of those functions (member records and string memory are not written:
+// C12.assign_changes_no_group), and memberSubscribes is proved against the definition itself (reveal).
 //@ spec func subscribes(m *memberState, t string) bool = exists i int :: 0 <= i && i < len(m.topics) && m.topics[i] == t
+//@ opaque
 
 //@ func memberSubscribes
 //@   opaque_strings
+//@   reveal subscribes
 //@   nullable member
 //@   ensures [C12.subscribes_def] result == (member != nil && subscribes(member, topic))
 //@   loop 1 invariant member != nil && -1 <= rangeidx(1) && rangeidx(1) < len(member.topics) && (forall j int :: 0 <= j && j <= rangeidx(1) ==> member.topics[j] != topic)
@@ -71,5 +75,17 @@ package broker
 //@   loop 7 invariant forall m string :: has(assignments, m) ==> has(result, m) && allocated(mapval(assignments, m)) && base(mapval(assignments, m)) != base(memberAssignments)
 //@   loop 7 invariant forall m string, i int :: has(assignments, m) && 0 <= i && i < len(mapval(assignments, m)) ==> has(mapval(result, m), mapval(assignments, m)[i].Name)
 
+// collectTopicPartitions: a new map (topic -> partition ids, from the store's metadata or [0] as a fallback); the
+// coordinator's own state is only read.
 //@ func (c *GroupCoordinator) collectTopicPartitions
-//@   modular
+//@   opaque_strings
+//@   merge_branches
+//@   returns_fresh
+//@   requires coordOK(c) && groupOK(state)
+//@   ensures result != nil
+//@   ensures [C12.collect_changes_no_group] keepsMapLen() && keepsMem("string")
+//@   loop 1 invariant seen != nil && fresh(seen) && fresh(subscriptions) && keepsMapLen() && keepsMem("string")
+//@   loop 2 invariant seen != nil && fresh(seen) && fresh(subscriptions) && keepsMapLen() && keepsMem("string") && member != nil && -1 <= rangeidx(2) && rangeidx(2) < len(member.topics)
+//@   loop 3 invariant result != nil && fresh(result) && keepsMapLen() && keepsMem("string") && -1 <= rangeidx(3) && rangeidx(3) < len(subscriptions)
+//@   loop 4 invariant result != nil && fresh(result) && keepsMapLen() && keepsMem("string") && meta != nil && storedMetaOK(meta) && -1 <= rangeidx(4) && rangeidx(4) < len(meta.Topics)
+//@   loop 5 invariant result != nil && fresh(result) && keepsMapLen() && keepsMem("string") && meta != nil && storedMetaOK(meta) && -1 <= rangeidx(4) && rangeidx(4) < len(meta.Topics) && -1 <= rangeidx(5) && rangeidx(5) < len(topic.Partitions) && topic.Topic != nil && fresh(partitions)
